@@ -102,8 +102,19 @@ def run_laws(case):
       old = tr.ref_get(cur, path)
     except (KeyError, IndexError):
       exists = False
+    if case.get('iterate'):
+      # the view is iterated / measured before it is used for the set (a view may remember what it listed)
+      _guard(lambda: (len(view), list(view.items())), f'{what}: iterating the view first')
     new_view = _guard(lambda: view.copy_and_set(key, value), what)
     new = new_view.data
+    if case.get('iterate') and tr.is_container(new):
+      # the returned view lists the leaves of *its* data: every listed path reads back its leaf, as many as a fresh view lists
+      listed = _guard(lambda: list(new_view.items()), f'{what}; iterating the returned view')
+      fresh = _guard(lambda: list(tree.TreeMapView(new).items()), f'{what}; iterating a fresh view of the result')
+      check(len(listed) == len(fresh) == _guard(lambda: len(new_view), f'{what}; len of the returned view')
+            and all(lk == fk and lv is fv for (lk, lv), (fk, fv) in zip(listed, fresh)),
+            'derived-view-iteration-stale', f'{what}: the returned view lists {listed!r}, a fresh view of its data {new!r} lists {fresh!r}')
+      classes.add('iterate-derived-view')
     # (1) the viewed data is unchanged at every depth
     check(tr.deep_equal(cur, snap), 'original-mutated', f'{what}: original is now {cur!r}')
     # (2) agrees with the reference copy-on-write set
@@ -215,7 +226,7 @@ def strat_laws(tier):
       model = tr.ref_set(model, tr.npath(path), tr.decode(vj))
       if not tr.is_container(model):
         break
-    return {'tree': tj, 'ops': ops, 'share': share, 'chain': draw(st.booleans())}
+    return {'tree': tj, 'ops': ops, 'share': share, 'chain': draw(st.booleans()), 'iterate': draw(st.booleans())}
   return s()
 
 
@@ -323,7 +334,8 @@ def run_views(case):
   check(tr.deep_equal(sk, snap), 'skip-sets-something', f'{what}.copy_and_set(SKIP) -> {sk!r}')
   upd = case.get('update') or []
   if upd:
-    pairs = [(tr.npath(p), tr.decode(vj)) for p, vj in upd]
+    # {'orig': 1}: the pair puts back the very object the viewed data holds at that path (after earlier pairs changed it or an ancestor)
+    pairs = [(tr.npath(p), tr.ref_get(data, tr.npath(p)) if vj == {'orig': 1} else tr.decode(vj)) for p, vj in upd]
     model = data
     for p, v in pairs:
       model = tr.ref_set(model, p, v)
@@ -394,6 +406,15 @@ def strat_views(tier):
       try:      # the path may have stopped existing (an ancestor was replaced by a leaf in between): then no repeat
         model = tr.ref_set(model, tr.npath(p0), tr.decode(vj))
         upd.append([p0, vj])
+      except (TypeError, KeyError, IndexError, AssertionError):
+        pass
+    if upd and node_paths and draw(st.integers(0, 2)) == 0:
+      # a later pair sets a path back to the object it held originally (an earlier pair may have changed it, or replaced an ancestor)
+      related = [q for q in node_paths if any(tr.related(tuple(map(tuple, q)), tr.npath(u[0])) for u in upd)]
+      q = draw(st.sampled_from(related or node_paths))
+      try:
+        model = tr.ref_set(model, tr.npath([list(c) for c in q]), tr.ref_get(data, tr.npath([list(c) for c in q])))
+        upd.append([[list(c) for c in q], {'orig': 1}])
       except (TypeError, KeyError, IndexError, AssertionError):
         pass
     upd2 = upd
